@@ -13,7 +13,7 @@ RULE_E = ("member selection: definition histories as for C17 (classes with / wit
           "members f/g/p/__init__/__new__/__setattr__/_priv/__repr__/__eq__ of every kind, invariants with check_on "
           "CALL/SETATTR/ALL in both orders, own and inherited); for every class the wrapped members are compared with "
           "the must-wrap / must-not-wrap rule computed from the declarations.")
-RULE_C = ("run time: checker-cluster cases of kinds method / property get,set,del / __init__ with 1-2 invariants "
+RULE_C = ("run time: checker-cluster cases of kinds method (def and async def) / property get,set,del / __init__ with 1-2 invariants "
           "(truth before and after the body independent, raising and non-boolean results, all error forms): "
           "invariants before and after the operation, first falsy one reported, body skipped on a violation before.")
 
@@ -23,7 +23,9 @@ def gen_with_invs(rng, n):
     kinds = ["method", "prop_get", "prop_set", "prop_del", "init"]
     out = []
     while len(out) < n:
-        c = g.case(kind=kinds[len(out) % len(kinds)], is_async=False)
+        kind = kinds[len(out) % len(kinds)]
+        # async methods too: their wrapper selects the invariants for calls like the one of a plain method
+        c = g.case(kind=kind, is_async=(kind == "method" and rng.random() < 0.5))
         if c["invs"]:
             out.append(c)
     return out
